@@ -55,8 +55,28 @@ def run(t, budget=1.0):
         entry, mi, L = pc.draw_target(data)
         M = entry.model
         cfgs = entry.status["configs"]
-        family = data.draw(st.sampled_from(["read", "read", "write", "hostile", "cursor", "cursor"]))
+        family = data.draw(st.sampled_from(["read", "read", "write", "hostile", "cursor", "cursor", "exactfit", "exactfit"]))
         res.cls("family_" + family)
+        if family == "exactfit":
+            # direction 2 only, many images per case (no truncation sweep): well-formed images incl. inflated block lengths (small and
+            # near 2^8 / 2^16), bound to exactly their size; no accessor family may trip the handler or fault
+            for _ in range(12):
+                v2 = data.draw(values.level_values(L, max_entries=3, inflate=data.draw(st.sampled_from([True, True, False])), model=M))
+                img2, _sz = M.encode_message(L, v2, background=data.draw(st.sampled_from([0, 0xFF, 0x5A])))
+                for c2 in [x for x in READ_CMDS if x != "checked"]:
+                    cfg = cfgs[data.draw(st.integers(0, len(cfgs) - 1))]
+                    line = read_line(c2, mi, img2.hex() or "-")
+                    resp = pc.call(entry, cfg, line)
+                    res.count()
+                    res.nontriv(common.text_hash(entry.dir, c2, img2, "full"))
+                    if outcome(resp) == "OUTLIMIT":
+                        res.cls("inconclusive_output_limit")
+                        continue
+                    if outcome(resp) != "OK":
+                        pc.fail("spurious-assertion:%s" % c2.replace(" ", "-") if outcome(resp) == "ASSERT" else "silent-out-of-bounds:%s:exact-fit" % c2.replace(" ", "-"), entry,
+                                {"cmd": line, "config": cfg, "n": len(img2), "full": len(img2), "expect": "OK", "actual": resp[:300]},
+                                "[%s] %s on a well-formed, exactly fitting image of message %s: %s" % (cfg, c2, L.name, resp[:200]))
+            return
         if family in ("read", "hostile"):
             vals = data.draw(values.level_values(L, max_entries=3, inflate=data.draw(st.booleans())))
             img, size = M.encode_message(L, vals, background=data.draw(st.sampled_from([0, 0xFF, 0x42])))
